@@ -5,10 +5,11 @@ except NameError:
     def assume(cond):
         return None
 import copy
-from glom.matching import TypeMatchError
+from collections import ChainMap
+from glom.matching import TypeMatchError, MatchError, _RE_TYPES
 from glom.core import (glom, T, S, A, Spec, TType, Path, Inspect, MODE, MIN_MODE, CHILD_ERRORS, CUR_ERROR, LAST_CHILD_SCOPE, NO_PYFRAME, UP, ROOT,
                        AUTO, FILL, GlomError, ScopeVars, TargetRegistry, _t_eval, _has_callable_glomit, _glom, _DEFAULT_SCOPE, _MISSING, GLOM_DEBUG,
-                       _ArgValuator, chain_child, arg_val, SKIP, STOP)
+                       _ArgValuator, chain_child, arg_val, SKIP, STOP, PathAccessError)
 
 
 def glom_inner_ref(target, spec, scope):
@@ -201,3 +202,50 @@ def wrap_ref(cls, exc):
 def tme_copy_ref(self):
     """TypeMatchError.__copy__: rebuilt from (actual, expected), which are args[2] and args[1]"""
     return TypeMatchError(self.args[2], self.args[1])
+
+
+# ------------------------------------------------------------------------------------------------------------------ C07
+def s_first_magic_ref(scope, key, _t):
+    """the first step of an S / A expression looks the name up in the scope (inner frames shadow outer ones);
+    an unbound name is a PathAccessError at position 0"""
+    try:
+        return scope[key]
+    except KeyError as e:
+        raise PathAccessError(e, Path(_t), 0)
+
+
+def vars_glomit_ref(self, target, spec):
+    """every evaluation of Vars yields a FRESH ScopeVars object (nothing is shared between calls or with the spec)"""
+    return ScopeVars(self.base, self.defaults)
+
+
+def scopevars_init_ref(self, base, defaults):
+    """the variables live in a fresh dict copied from base, then updated with the defaults (neither argument is kept)"""
+    self.__dict__ = dict(base)
+    self.__dict__.update(defaults)
+
+
+def let_glomit_ref(self, target, scope):
+    """Let(**kw): evaluates every binding against the target and binds the names in the CURRENT frame; yields the target"""
+    scope.update({k: scope[glom](target, v, scope) for k, v in self._binding.items()})
+    return target
+
+
+def spec_glom_ref(self, target, **kw):
+    """Spec.glom(target, scope=...): the Spec's own scope and the per-call scope are merged into a NEW dict (neither is modified)"""
+    merged = dict(self.scope)
+    merged.update(kw.get('scope', {}))
+    kw['scope'] = ChainMap(merged)
+    glom_ = merged.get(glom, glom)
+    return glom_(target, self.spec, **kw)
+
+
+def regex_glomit_ref(self, target, scope):
+    """Regex: the target must be str / bytes and match; named groups are bound in the CURRENT frame; yields the target"""
+    if type(target) not in _RE_TYPES:
+        raise MatchError("{0!r} not valid as a Regex target -- expected {1!r}", type(target), _RE_TYPES)
+    match = self.match_func(target)
+    if not match:
+        raise MatchError("target did not match pattern {0!r}", self.pattern)
+    scope.update(match.groupdict())
+    return target
